@@ -69,6 +69,8 @@ fn tag(prop: Prop, clause: &str, key: String, msg: String) -> Tagged {
 
 /// Upper bound on harness-stepped steps per run (cost bound only).
 pub const STEP_CAP: usize = 400;
+/// Upper bound on the total number of program nodes on the exec stack while stepping.
+pub const EXEC_NODE_CAP: usize = 3000;
 
 fn model_matches(m: &M, sn: &Snap, real: &PushState) -> bool {
     if m.int != sn.int || m.bool != sn.bool || m.out != sn.out || m.caps != sn.caps {
@@ -384,6 +386,13 @@ pub fn stepped(sc: &VmSc, with_faults: bool, keep_states: bool, obs: &mut Obs, o
         res.steps = t;
         if keep_states {
             res.states.push(real.clone());
+        }
+        // cost bound of the harness (not of the code under test): an unbounded exec stack may
+        // legitimately grow by a whole block per step; stop stepping (the run then counts as
+        // "not ended", so the real loop is not consulted) before the recorded states get large
+        if model.exec.iter().map(Prog::nodes).sum::<usize>() > EXEC_NODE_CAP {
+            obs.hit("probe.stepping-stopped-at-exec-node-cap");
+            break;
         }
     }
     obs.count("steps", res.steps as u64);
